@@ -26,9 +26,11 @@ func stringRuleToASTNode(r schema.RuleASTNode) schema.ASTNode {
 }
 
 func stringRuleToASTNodeType(a schema.ASTNode, s string) schema.ASTNode {
-	if s == "any" {
+	if s == "any" || s == "enum" {
+		// `any` and `enum` have no JSON kind of their own: the node is converted
+		// without a "type" keyword (for enum, with the "enum" keyword of the rule set).
 		a.TokenType = schema.TokenTypeString
-		a.SchemaType = s // any
+		a.SchemaType = s // any, enum
 	} else if format := FormatFromSchemaType(s); format != nil { // JSight example: // {or: [ "email"... ]}
 		a.TokenType = schema.TokenTypeString
 		a.Rules.Set("type", schema.RuleASTNode{
